@@ -1,12 +1,69 @@
-"""Failing-input search and replay against the real crate (never decides anything; see DESIGN 3.4)."""
-import os, json, subprocess
+"""Replay of recorded inputs against the REAL crate (never decides a proof obligation; see DESIGN 3.4 / 5)."""
+import os, json, subprocess, shutil, hashlib
+
+
+def build(vx):
+    """build /verif/replay against vx.REPO; returns the binary path"""
+    tag = hashlib.sha1(vx.REPO.encode()).hexdigest()[:8]
+    work = os.path.join(vx.BUILD, f"replay_crate-{tag}")
+    os.makedirs(os.path.join(work, "src"), exist_ok=True)
+    open(os.path.join(work, "Cargo.toml"), "w").write(open(os.path.join(vx.VERIF, "replay", "Cargo.toml.in")).read().replace("@REPO@", vx.REPO))
+    shutil.copy(os.path.join(vx.VERIF, "replay", "src", "main.rs"), os.path.join(work, "src", "main.rs"))
+    lock = os.path.join(vx.REPO, "Cargo.lock")
+    if os.path.exists(lock):
+        shutil.copy(lock, os.path.join(work, "Cargo.lock"))
+    tgt = os.path.join(vx.BUILD, "xt2")
+    p = subprocess.run(["cargo", "build", "--offline", "--target-dir", tgt], cwd=work, capture_output=True, text=True,
+                       env=dict(os.environ, CARGO_NET_OFFLINE="true"), timeout=900)
+    if p.returncode != 0:
+        raise RuntimeError("replay crate does not build against the working tree: " + p.stderr[-1500:])
+    return os.path.join(tgt, "debug", "vx-replay")
+
+
+def run_scenario(binary, sc):
+    args = [binary, sc["mode"], str(sc.get("n", 0)), "0"] + [c.encode().hex() for c in sc["chunks"]]
+    p = subprocess.run(args, capture_output=True, text=True, timeout=60)
+    if p.returncode != 0:
+        return {"panic": True, "stderr": p.stderr[-600:]}
+    obs = json.loads(p.stdout.strip().splitlines()[-1])
+    obs["panic"] = False
+    obs["out_text"] = bytes.fromhex(obs["out"]).decode("latin-1")
+    return obs
+
+
+def meets(obs, expect):
+    if obs.get("panic"):
+        return False
+    for k, v in expect.items():
+        if k == "no_panic":
+            continue
+        if obs.get(k) != v:
+            return False
+    return True
+
+
+def replay_findings(vx):
+    """thorough tier: fixed findings must stay fixed on the real code, the known finding is reported as such"""
+    sc_all = json.load(open(os.path.join(vx.VERIF, "findings", "scenarios.json")))["scenarios"]
+    binary = build(vx)
+    out = []
+    for sc in sc_all:
+        obs = run_scenario(binary, sc)
+        out.append({"id": sc["id"], "property": sc["property"], "status": sc["status"], "ok": meets(obs, sc["expect"]), "observed": obs, "expect": sc["expect"], "what": sc["what"],
+                    "input": sc["chunks"], "mode": sc["mode"], "n": sc.get("n", 0)})
+    return out
 
 
 def search(vx, prop, info, seed):
-    """return a dict describing a failing input replayed on the real crate, or None"""
+    """failing-input search for a failed obligation: not implemented beyond trie validation (which carries its input)"""
     return None
 
 
 def rerun(vx, replay):
-    print("replay harness not built yet")
+    fi = replay.get("failing_input") or {}
+    if fi.get("kind") == "header":
+        print(f"failing input for sample {fi['sample']}: header {fi['run_input']!r}: {fi['expected']}")
+        print("(replay: compile samples/%s against /repo and send the header; the trie validation of `vx check` recomputes it)" % fi["sample"])
+        return 1
+    print("no executable replay for this record")
     return 1
